@@ -19,7 +19,7 @@ from common import Quiet, blit, coq_bad, listlit, pmap, ulit
 
 WS = ["", "", " ", " ", "  ", "\n", "\t", " \n  "]
 WS1 = [" ", " ", "  ", "\n", "\t ", " \n "]
-H = ["a", "b", "id"]
+H = ["a", "b", "id", "City", "unitPrice"]
 QUALS_F = ["", "", "", ".nocontrib", ".onmatch", ".once", ".asbool"]
 QUALS_V = ["", "", "", ".onmatch", ".latch", ".onchange", ".notnone", ".k", ".asbool"]
 
@@ -52,7 +52,7 @@ class T:
         return ("H", r.choice(H) + r.choice(["", "", "", ".nocontrib", ".asbool"]))
 
     def var(self):
-        return ("V", self.r.choice(["x", "y1", "tot", "my_var", "a-b"]) + self.r.choice(QUALS_V))
+        return ("V", self.r.choice(["x", "y1", "tot", "my_var", "a-b", "Rows", "byCity"]) + self.r.choice(QUALS_V))
 
     def val(self, d):
         """something with a value"""
@@ -64,7 +64,8 @@ class T:
             return ("R", r.choice(["g.variables.z", "other.headers.a", "g.variables.t.k"]))
         f = r.choice(["add", "subtract", "multiply", "int", "length", "lower", "upper", "concat", "count", "count_lines", "count_scans", "line_number", "total_lines", "sum", "max", "min",
                       "substring", "strip", "random", "mod", "divide", "round", "tally", "first", "every", "peek", "pop", "get", "percent"])
-        q = r.choice(["", "", ".onmatch"]) if f in ("count", "sum", "tally", "first") else ""
+        # arbitrary name qualifiers (the variable a function writes) keep the case they are written in
+        q = r.choice(["", "", ".onmatch", ".Rows", ".ByCity", ".onmatch.OsloSeen", ".Odd_1.onmatch"]) if f in ("count", "sum", "tally", "first", "every") else ""
         if f in ("count", "count_lines", "count_scans", "line_number", "total_lines"):
             return ("F", f + q, [])
         if f in ("add", "subtract", "multiply", "mod", "divide"):
@@ -80,7 +81,7 @@ class T:
         if f == "round":
             return ("F", f, [self.val(d + 1), ("N", False, "1", None)])
         if f == "every":
-            return ("F", f, [self.hdr(), ("N", False, "2", None)])
+            return ("F", f + q, [self.hdr(), ("N", False, "2", None)])
         if f in ("peek", "get"):
             return ("F", f, [("S", "k"), ("N", False, "0", None)] if f == "peek" else [("S", "k"), ("S", "j")])
         if f == "pop":
